@@ -242,7 +242,23 @@ class XMLSchemaConverter(NamespaceMapper):
         """
         if self.attr_prefix is not None and attributes:
             for name, value in attributes:
-                yield self.attr_prefix + self.map_qname(name), value
+                namespace = get_namespace(name)
+                if not namespace or self._reverse.get(namespace) != '':
+                    qname = self.map_qname(name)
+                else:
+                    # The default namespace doesn't apply to attributes: use
+                    # another prefix of the namespace or the extended name.
+                    for prefix, uri in reversed(self.namespaces.items()):
+                        if prefix and uri == namespace:
+                            self._reverse[namespace] = f'{prefix}:'
+                            try:
+                                qname = self.map_qname(name)
+                            finally:
+                                self._reverse[namespace] = ''
+                            break
+                    else:
+                        qname = name if self._use_namespaces else self.map_qname(name)
+                yield self.attr_prefix + qname, value
 
     def map_content(self, content: Iterable[tuple[str, Any, Any]]) \
             -> Iterator[tuple[str, Any, Any]]:
